@@ -538,12 +538,9 @@ class Cfg:
 
 
 def ind_cfg(bits: int) -> IndicationCfg:
-    return IndicationCfg(
-        eof_sent_indication_required=bool(bits & 1),
-        eof_recv_indication_required=bool(bits & 2),
-        file_segment_recvd_indication_required=bool(bits & 4),
-        transaction_finished_indication_required=bool(bits & 8),
-    )
+    # positional, in the documented field order (EOF-Sent, EOF-Recv, File-Segment-Recv, Transaction-Finished, Suspended,
+    # Resumed): this is how the library's own tests build it, so the order is part of the interface
+    return IndicationCfg(bool(bits & 1), bool(bits & 2), bool(bits & 4), bool(bits & 8), True, True)
 
 
 # ---------------------------------------------------------------------------------------------
